@@ -129,6 +129,52 @@ def gen(seed, tier="quick"):
             f["params"].insert(pos, ["xm", "AM"])
             op["args"].insert(pos, v)
         scn["misuse"] = kind
+    if not extra and mode == "ill" and r.random() < 0.3:
+        # recursion: the body makes a nested, well-typed call of the SAME function (other sizes), which completes before the outer
+        # call fails at its return value -- the outer error must describe the outer call
+        ok = c02.gen_family(rng(seed, "inner"), sym_ok=False, ill_bias=0.0)
+        for sib, op in zip(scn["siblings"], scn["threads"][0]):
+            f = scn["fns"][sib["fn"]]
+            if f.get("kind", "fn") != "fn" or len(f["params"]) != len(op["args"]):
+                continue
+            inner_args = []
+            good = True
+            for (nm, aref), a in zip(f["params"], op["args"]):
+                if aref is None:
+                    inner_args.append(a)
+                    continue
+                sp = scn["anns"][aref]
+                toks = model.parse_dims(sp["dims"])
+                pref2 = {"a": 5, "b": 6, "c": 7, "*v": (4,), "*a": (3,), "{k}": 2}
+                g2 = c02.Gen(rng(seed, "inner", nm), names=("a", "b", "c"), sizes=(5, 6, 7), var_names=("v", "a"))
+                toks2 = []
+                for t in toks:
+                    if t["kind"] == "anonvar":
+                        toks2.append({"kind": "anonvar"})
+                    elif t["kind"] == "anon":
+                        toks2.append({"kind": "anon", "name": ""})
+                    else:
+                        toks2.append(dict(t))
+                try:
+                    shape = g2.shape_for(toks2, pref2, p_bad=0.0, p_rank=0.0)
+                except Exception:
+                    good = False
+                    break
+                inner_args.append({"t": a["t"] if a["t"] in ("np", "duck") else "np", "s": shape, "d": "float32"})
+            inner_ret = None
+            if good and f.get("ret"):
+                try:
+                    rt = [dict(t) if t["kind"] not in ("anonvar", "anon") else ({"kind": "anonvar"} if t["kind"] == "anonvar" else {"kind": "anon", "name": ""})
+                          for t in model.parse_dims(scn["anns"][f["ret"]]["dims"])]
+                    g3 = c02.Gen(rng(seed, "inner", "ret"), names=("a", "b", "c"), sizes=(5, 6, 7), var_names=("v", "a"), sym_args=("k",))
+                    inner_ret = {"t": "np" if scn["anns"][f["ret"]]["atype"] == "np" else "duck",
+                                 "s": g3.shape_for(rt, {"a": 5, "b": 6, "c": 7, "*v": (4,), "*a": (3,), "{k}": 2}, p_bad=0.0, p_rank=0.0), "d": "float32"}
+                except Exception:
+                    good = False
+            if good:
+                op["body"] = [{"op": "call", "fn": sib["fn"], "args": inner_args, "kw": 0, "body": [], "ret": inner_ret,
+                               "exit": "ret", "_nested": True}]
+        scn["recursion"] = True
     assign_ids(scn["threads"])
     return scn
 
@@ -140,6 +186,7 @@ class Observer:
         self.viol = []
         self.feats = set()
         self.records = []
+        self.saved = []
         self.body0 = 0
         self.fired0 = 0
         self.faulted = set()
@@ -154,6 +201,7 @@ class Observer:
     def pre(self, interp, run, op, path):
         if op["op"] == "call":
             self.run = run
+            self.saved.append((self.records, self.body0, self.fired0))  # calls nest (recursion): one record list per call
             self.records = []
             self.body0 = run.body_runs
             self.fired0 = len(seams.state().fired)
@@ -166,7 +214,16 @@ class Observer:
     def post(self, interp, run, op, path, out):
         if op["op"] != "call":
             return
-        seams.state().tc_observer = None
+        try:
+            self._post_call(interp, run, op, path, out)
+        finally:
+            self.records, self.body0, self.fired0 = self.saved.pop() if self.saved else ([], 0, 0)
+            if not self.saved:
+                seams.state().tc_observer = None
+
+    def _post_call(self, interp, run, op, path, out):
+        if op.get("_nested"):
+            return  # the inner (well-typed) call of a recursion scenario is not judged itself
         if len(seams.state().fired) != self.fired0:
             self.faulted.add(path)
             self.stats.inc("calls_with_fault_fired")
@@ -328,8 +385,8 @@ def execute(scn):
     viols = list(obs.viol)
     if not scn.get("misuse"):
         full, ponly = _family_model_with_extra(scn)
-        for sib, t in zip(scn["siblings"], [t for t in runs[0].transcript if t[1] == "call"]):
-            if t[0] in obs.faulted:
+        for sib, t in zip(scn["siblings"], [t for t in runs[0].transcript if t[1] == "call" and "." not in t[0]]):
+            if t[0] in obs.faulted or scn.get("recursion"):
                 continue
             v = c02.verdict(t[2])
             allowed = full if sib["with_ret"] else ponly
